@@ -292,10 +292,12 @@ def decompress(run, fx):
     args = [dc.render(dc.strip_all_casts(a)) for a in c['args']]
     _, us = find_decl(dc, 'uncompressed_size')
     asg = [e for _, e in dc.elements() if e['k'] == 'BinaryOperator' and e['op'] == '=' and dc.render(dc.N(e['c'][0])) == 'uncompressed_size']
-    szok = any('134217727' in dc.render(e) for e in asg)
+    szok = any('134217727' in dc.render(e, resolve=True) for e in asg)
     alloc = [e for e in calls_in(dc) if (e.get('fq') or '').startswith('graphite2::gralloc')]
     aok = alloc and dc.render(dc.strip_all_casts(alloc[0]['args'][0])) == 'uncompressed_size'
-    argok = len(args) == 4 and args[2] == 'uncompressed_table' and args[3] == 'uncompressed_size' and '_sz' in args[1] and '2' in args[1]
+    a1 = dc.strip_all_casts(c['args'][1]) if len(c['args']) == 4 else {'k': ''}
+    hdr8 = a1['k'] == 'BinaryOperator' and a1['op'] == '-' and '_sz' in dc.render(a1['c'][0]) and dom._cval(dc, a1['c'][1]) == 8
+    argok = len(args) == 4 and args[2] == 'uncompressed_table' and args[3] == 'uncompressed_size' and hdr8
     if szok and aok and argok:
         run.held('DECOMPRESS', 'announced size', dc.loc(c), 'size = hdr & 0x07ffffff; buffer of exactly that size; decoder called with (p, _sz - 8, buffer, size)')
     else:
